@@ -419,7 +419,7 @@ func (e *Env) PlainChainProgress(chunks []Chunk, chain []ChainElem) int {
 				if !ok {
 					undefined = true
 				}
-				return "(?:" + binaryregexp.QuoteMeta(v) + ")"
+				return "(?:" + quoteBytes(v) + ")"
 			})
 		}
 		if undefined {
@@ -737,3 +737,20 @@ func (n *Node) Clone() *Node {
 }
 
 var _ = bytes.Compare
+
+// quoteBytes: an expression that matches exactly the bytes of v. Written from the meaning of a variable ("the
+// bytes the group captured"), not with binaryregexp.QuoteMeta: the pattern text is read as UTF-8 whose runes up
+// to 0xff stand for single bytes, so a captured byte >= 0x80 left as it is would be read as (part of) another rune.
+func quoteBytes(v string) string {
+	var b strings.Builder
+	for i := 0; i < len(v); i++ {
+		c := v[i]
+		switch {
+		case c >= 'a' && c <= 'z', c >= 'A' && c <= 'Z', c >= '0' && c <= '9':
+			b.WriteByte(c)
+		default:
+			fmt.Fprintf(&b, `\x%02x`, c)
+		}
+	}
+	return b.String()
+}
